@@ -37,6 +37,12 @@ def run(ctx, db, tier):
     # a refused late subscriber must stay reusable: an awaiter left pointing at the ready marker would, on its next subscription, swap the marker
     # out of an already resolved future (the result "changes afterwards": ready() flips back to false)
     C02.subscribe_protocol(ctx, db, 'C01.refusal-keeps-result-final')
+    # ... and the refusal must be decided by the same atomic step that would register: a ready test followed by the unconditional push replaces
+    # the ready marker of a future resolved in between (ready() flips back to false after the winner reported success)
+    C02.registration_one_step(ctx, db, 'C01.ready-marker-never-pushed-over')
+    # a registration that is reported as made whatever the slot held makes every caller's "after subscribe" code run against a published awaiter
+    from .. import publish as publish_
+    publish_.check_no_touch(ctx, db, 'C01.registered-waiter-untouched', publish_.Summaries(db), per_instance=(tier == 'thorough'), floor=12)
     atomic.check_roles(ctx, db, 'C01.result-visible-to-pollers', only_functions=C02.RESULT_VISIBILITY_FUNCTIONS, floor=8)
     result_immutable(ctx, db)
     shared.claimed_promise(ctx, db, 'C01.lost-claim-starts-nothing')
@@ -154,6 +160,39 @@ def resolvers(ctx, db, rid1='C01.set-then-resolve', rid2='C01.verdict'):
             if f['nname'] == 'cocls::promise::set_value':
                 ctx.ob(r2, f, f['key'], verdict_bad is None, 'reported bool equals the outcome of the claim' + ('' if verdict_bad is None else ' -- ' + verdict_bad[0]),
                        desc=(verdict_bad[0] if verdict_bad else None), trace=(fmt_trace(verdict_bad[1], limit=30) if verdict_bad else None))
+    payload_forwarded(ctx, db, r1)
+
+
+def payload_forwarded(ctx, db, rid):
+    """the winner's payload is stored as the caller handed it in: a resolver (and the future's set it hands the payload to) takes its arguments
+    as forwarding references; an argument bound to the caller's lvalue must arrive at the payload constructor as an lvalue (std::forward), so the
+    stored result is a copy - std::move of such a parameter steals the caller's object (queue::push(lvalue) handing an item to a parked pop
+    empties the producer's item)"""
+    seen = {}; n = 0
+    for f in db.all_instances():
+        if norm(f.get('class') or '') not in ('cocls::promise', 'cocls::future', 'cocls::async_promise') or f.get('lambda'):
+            continue
+        fwd = {p_['name'] for p_ in (f.get('pattern_params') or []) if p_.get('name') and re.fullmatch(r'\w+\s*&&\s*(\.\.\.)?', (p_.get('type') or '').strip())}
+        if not fwd:
+            continue
+        # the parameters of this instantiation that are bound to an lvalue of the caller (T& && collapses to T&)
+        lv = {p_['name'] for p_ in f['params'] if re.sub(r'#\d+$', '', p_.get('name') or '') in fwd and re.search(r'[^&]&$', (p_.get('type') or '').strip())}
+        n += 1
+        st = seen.setdefault(f['key'], {'f': f, 'bad': None, 'lvalue_insts': 0})
+        st['lvalue_insts'] += bool(lv)
+        for e in f.events():
+            if e.k == 'call' and norm(e.get('callee') or '') == 'std::move':
+                m_ = re.fullmatch(r'param:(\w+(?:#\d+)?)', ((e.get('args') or [{}])[0].get('path') or ''))
+                if m_ and m_.group(1) in lv and st['bad'] is None:
+                    st['bad'] = (e, f.get('inst'), next(p_['type'] for p_ in f['params'] if p_['name'] == m_.group(1)))
+    if n == 0:
+        raise Broken('no resolver with forwarding-reference parameters found (promise::set_value(Args&&...))')
+    for k_, st in sorted(seen.items()):
+        f = st['f']; bad = st['bad']
+        ctx.ob(rid, f, (bad[0].get('loc') if bad else None) or f['key'], bad is None,
+               '%s hands its forwarding-reference arguments on with std::forward: an argument bound to the caller\'s lvalue is never moved from' % f['nname'].split('::', 1)[-1] +
+               ('' if not bad else ' -- std::move of a parameter of type %s in %s' % (bad[2], bad[1])),
+               desc=('the payload is moved out of the caller\'s lvalue: std::move applied to a forwarding-reference parameter instantiated as %s (the stored result is stolen from, not copied of, what the caller passed)' % bad[2]) if bad else None)
 
 
 def _pointee(p):
